@@ -100,6 +100,16 @@ Theorem C10_flush_collect_matches_source :
   forall s, Gen.KN_collect.gen_flush_collect s = RSome (flush_actions s).
 Proof. exact bridge_flush_collect. Qed.
 Print Assumptions C10_flush_collect_matches_source.
+Theorem C10_update_zip_matches_source :
+  forall lits maxsize s p x m, p < length (st_ports s) ->
+  Gen.KN_zip.gen_update_zip lits maxsize s p x m = update (KZip lits) s p x m.
+Proof. exact bridge_update_zip. Qed.
+Print Assumptions C10_update_zip_matches_source.
+Theorem C10_run_zip_matches_source :
+  forall lits maxsize s p x m, p < length (st_ports s) ->
+  Gen.KN_zip.gen_run_zip lits maxsize s p x m = of_option (update (KZip lits) s p x m).
+Proof. exact bridge_run_zip. Qed.
+Print Assumptions C10_run_zip_matches_source.
 Theorem C10_strip_has_no_effect : forall emit coro d l w, run_actions emit coro d (strip l) w = run_actions emit coro d l w.
 Proof. exact strip_run_actions. Qed.
 Print Assumptions C10_strip_has_no_effect.
